@@ -64,9 +64,12 @@ class RawX12File(object):
         Split the input stream on the delimiter and remove any leading CR-LF
         """
         while True:
-            if self.buffer.find(self.seg_term) == -1:
+            while self.buffer.find(self.seg_term) == -1:
                 # Need more data
-                self.buffer += self.fd.read(DEFAULT_BUFSIZE)
+                data = self.fd.read(DEFAULT_BUFSIZE)
+                if not data:
+                    break
+                self.buffer += data
             if self.buffer.find(self.seg_term) == -1:
                 # Still have no segment terminator
                 break
